@@ -65,7 +65,7 @@ func main() {
 	case *selftest:
 		os.Exit(doSelfTest(*prop, *repo, *verif, os.Stdout))
 	case *all:
-		os.Exit(doAll(core.Config{Repo: *repo, GOARCH: *arch, Tags: *tags, VTA: *vtaF}, *asJSON))
+		os.Exit(doAll(core.Config{Repo: *repo, GOARCH: *arch, Tags: *tags, VTA: *vtaF}, *asJSON, *prop))
 	case *prop != "":
 		os.Exit(doProp(*prop, *tier, *repo, *verif))
 	default:
@@ -98,8 +98,12 @@ func runRules(cfg core.Config, rs []*core.Rule) (*runResult, error) {
 	return res, nil
 }
 
-func doAll(cfg core.Config, asJSON bool) int {
-	res, err := runRules(cfg, rules.All())
+func doAll(cfg core.Config, asJSON bool, prop string) int {
+	rs := rules.All()
+	if prop != "" {
+		rs = rules.ForProp(prop) // -all -prop Cxx: only the rules of one property (used by the per-property self-test)
+	}
+	res, err := runRules(cfg, rs)
 	if err != nil {
 		if asJSON {
 			json.NewEncoder(os.Stdout).Encode(map[string]interface{}{"error": err.Error()})
